@@ -137,3 +137,38 @@ End Sys.
 Definition good_flags : flags := mkflags true true true.
 (* a request handed to the pool that will never run: the pool has been released and the request is still pending *)
 Definition lost_request (s : tst) : bool := t_released s && negb (match t_pend s with [] => true | _ => false end).
+
+(* ---------- what a recorded trace of a server scenario must look like ---------- *)
+(* events: the server has read request p (a whole packet cut out of the stream: it is handed to the pool right away), the
+   handler of p starts / ends, Handle has returned (the pool is released, Release has returned) *)
+Inductive pevent := PRead (p : pj) | PStartE (p : pj) | PEndE (p : pj) | PRelRetE | POther.
+Record pst := mkp { p_read : list pj; p_started : list pj; p_ended : list pj; p_rel : bool }.
+Definition pinit : pst := mkp [] [] [] false.
+Definition pstep (σ : pst) (e : pevent) : option pst :=
+  match e with
+  | PRead p =>        (* nothing is read (hence handed to the pool) once Handle has returned; identifiers are fresh *)
+      if p_rel σ || memp p (p_read σ) then None else Some (mkp (p_read σ ++ [p]) (p_started σ) (p_ended σ) (p_rel σ))
+  | PStartE p =>      (* only what was read starts, once, and not after Handle has returned *)
+      if p_rel σ || negb (memp p (p_read σ)) || memp p (p_started σ) then None
+      else Some (mkp (p_read σ) (p_started σ ++ [p]) (p_ended σ) (p_rel σ))
+  | PEndE p =>
+      if memp p (p_started σ) && negb (memp p (p_ended σ)) then Some (mkp (p_read σ) (p_started σ) (p_ended σ ++ [p]) (p_rel σ)) else None
+  | PRelRetE =>       (* Handle returns only when every request read has been executed *)
+      if negb (p_rel σ) && forallb (fun p => memp p (p_ended σ)) (p_read σ)
+      then Some (mkp (p_read σ) (p_started σ) (p_ended σ) true) else None
+  | POther => Some σ
+  end.
+Fixpoint pruns (σ : pst) (tr : list pevent) : option pst :=
+  match tr with [] => Some σ | e :: r => match pstep σ e with Some σ' => pruns σ' r | None => None end end.
+Definition puse_ok (tr : list pevent) : bool := match pruns pinit tr with Some _ => true | None => false end.
+
+(* the events of a step of the transition system *)
+Definition pev (l : tlabel) : list pevent :=
+  match l with
+  | CSubmit i n => [PRead (i, n)] | PStart p => [PStartE p] | PEnd p => [PEndE p] | ARelRet => [PRelRetE] | _ => []
+  end.
+Fixpoint ptrace (f : flags) (s : tst) (ls : list tlabel) : list pevent :=
+  match ls with
+  | [] => []
+  | l :: r => match tstep f s l with Some s' => pev l ++ ptrace f s' r | None => [] end
+  end.
